@@ -134,12 +134,14 @@ theorem pollTasks_ok (G : KMap Ghost) (ids : List Nat) (s : State) (seq : Nat) :
 
 theorem pickConn_mem (conns : KSet) (pref : Option Nat) (h : conns.isEmpty = false) :
     pickConn conns pref ∈ conns := by
-  have hmin : conns.min?.getD 0 ∈ conns := by
-    cases hm : conns.min? with
-    | none =>
-      rw [ExtTreeSet.min?_eq_none_iff] at hm
+  have hmin : conns.toList.head?.getD 0 ∈ conns := by
+    cases hm : conns.toList with
+    | nil =>
+      rw [ExtTreeSet.toList_eq_nil_iff] at hm
       simp [hm] at h
-    | some a => exact ExtTreeSet.min?_mem hm
+    | cons a l =>
+      have : a ∈ conns.toList := by rw [hm]; exact List.mem_cons_self
+      simpa using (ExtTreeSet.mem_toList.1 this)
   unfold pickConn
   split
   · split
